@@ -107,7 +107,7 @@ fn ceil_shift(x: u64, k: u32) -> u64 {
 }
 
 // @harness c09_meta_params
-// @props C09 C20 C12
+// @props C09 C20 C12 C03
 // @tier quick
 // @timeout 900
 // @desc Qcow2Header::calculate_meta_params, Qcow2Info::get_max_l1_entries, __max_l1_size, __max_refcount_table_size for all inputs: no overflow; refcount table at cluster 1 and large enough (8 bytes per refcount block needed to describe `size` bytes, rounded up to the block size, capped at 8 MiB); refcount block directly after it; L1 table directly after that with ceil(size / (l2_entries*cluster_size)) entries capped at 32 MiB; all three regions cluster aligned, consecutive and non-overlapping
